@@ -42,12 +42,13 @@ static void lg_add(void *p, size_t n) {
     lg_live++; lg_bytes += n;
     if (lg_bytes > lg_high) lg_high = lg_bytes;
 }
+static size_t vp_last_freed_size = 0;
 static int lg_del(void *p) {
     lg_init();
     size_t i = lg_slot(p);
     while (lg_tab[i].p) {
         if (lg_tab[i].p == p) {
-            lg_bytes -= lg_tab[i].n; lg_live--;
+            lg_bytes -= lg_tab[i].n; lg_live--; vp_last_freed_size = lg_tab[i].n;
             lg_tab[i].p = (void *)1; /* tombstone */
             return 1;
         }
@@ -91,7 +92,21 @@ void vp_print_end_less(size_t dlive_plus, size_t dlive_minus, size_t dbytes_plus
     fprintf(vp_out, "end live=%zu bytes=%zu\n", lg_live + dlive_minus - dlive_plus, lg_bytes + dbytes_minus - dbytes_plus);
 }
 
+/* `glob recycle=on`: freed blocks are stashed (newest first) and handed out again, content untouched, to the next request of
+   the same size - what a real allocator does, made deterministic and independent of libc / ASan quarantine */
+#define STASH_MAX 64
+static struct { void *p; size_t n; } stash[STASH_MAX];
+static int n_stash = 0;
 void *vp_raw_alloc(size_t n) {
+    if (vp_glob.recycle) {
+        for (int i = n_stash - 1; i >= 0; i--) if (stash[i].n == n) {
+            void *q = stash[i].p;
+            for (int j = i; j + 1 < n_stash; j++) stash[j] = stash[j + 1];
+            n_stash--;
+            lg_add(q, n);
+            return q;
+        }
+    }
     void *p = malloc(n ? n : 1);
     if (!p) { fprintf(stderr, "vport: out of memory\n"); exit(2); }
     memset(p, vp_poison, n ? n : 1);
@@ -104,6 +119,7 @@ void vp_raw_free(void *p) {
         fprintf(vp_out, "abort free-of-unknown-block\n"); fflush(vp_out);
         abort();
     }
+    if (vp_glob.recycle && n_stash < STASH_MAX) { stash[n_stash].p = p; stash[n_stash].n = vp_last_freed_size; n_stash++; return; }
     free(p);
 }
 
